@@ -5,6 +5,7 @@ package internal
 import (
 	"bytes"
 	"encoding/xml"
+	"fmt"
 	"io"
 	"io/ioutil"
 	"net/http"
@@ -66,6 +67,20 @@ func verifStubDoMultiStatus(c *Client, req *http.Request) (*MultiStatus, error) 
 	if VerifReplyMultiStatus != nil {
 		return VerifReplyMultiStatus(req)
 	}
+	if _, ok := c.http.(*VerifLoopback); ok {
+		VerifServed = nil
+		resp, err := c.Do(req)
+		if err != nil {
+			return nil, err
+		}
+		if resp.StatusCode != http.StatusMultiStatus {
+			return nil, fmt.Errorf("HTTP multi-status request failed: %v", resp.Status)
+		}
+		if VerifServed == nil {
+			return nil, io.ErrUnexpectedEOF
+		}
+		return VerifServed, nil
+	}
 	return &MultiStatus{}, nil
 }
 
@@ -107,6 +122,9 @@ func verifStubXMLEncode(e *xml.Encoder, v interface{}) error {
 
 // raw values on the identity wire stay in their outgoing form
 func verifStubRawXMLName(val *RawXMLValue) (xml.Name, bool) {
+	if inner, ok := val.out.(*RawXMLValue); ok {
+		return verifStubRawXMLName(inner)
+	}
 	if val.out != nil {
 		name, err := valueXMLName(val.out)
 		return name, err == nil
@@ -118,6 +136,9 @@ func verifStubRawXMLName(val *RawXMLValue) (xml.Name, bool) {
 }
 
 func verifStubRawDecode(val *RawXMLValue, v interface{}) error {
+	if inner, ok := val.out.(*RawXMLValue); ok {
+		return verifStubRawDecode(inner, v)
+	}
 	if val.out != nil {
 		if dst, ok := v.(*ResourceType); ok {
 			if src, ok := val.out.(*ResourceType); ok {
@@ -230,4 +251,149 @@ func VerifXMLRoundTrip(v interface{}, out interface{}) error {
 		return err
 	}
 	return xml.Unmarshal(b, out)
+}
+
+// ---------------------------------------------------------------------------
+// loopback: a client talking to a handler of this repository
+
+type VerifLoopback struct {
+	Handler  http.Handler
+	Requests []*http.Request
+}
+
+type verifLoopRecorder struct {
+	hdr   http.Header
+	code  int
+	parts []string
+}
+
+func (r *verifLoopRecorder) Header() http.Header { return r.hdr }
+func (r *verifLoopRecorder) WriteHeader(code int) {
+	if r.code == 0 {
+		r.code = code
+	}
+}
+func (r *verifLoopRecorder) Write(b []byte) (int, error) {
+	if r.code == 0 {
+		r.code = 200
+	}
+	r.parts = append(r.parts, string(b))
+	return len(b), nil
+}
+func (r *verifLoopRecorder) WriteString(s string) (int, error) {
+	if r.code == 0 {
+		r.code = 200
+	}
+	r.parts = append(r.parts, s)
+	return len(s), nil
+}
+
+type verifPartsBody struct {
+	parts []string
+	i     int
+	pos   int
+}
+
+func (b *verifPartsBody) Read(p []byte) (int, error) {
+	for b.i < len(b.parts) && b.pos >= len(b.parts[b.i]) {
+		b.i++
+		b.pos = 0
+	}
+	if b.i >= len(b.parts) {
+		return 0, io.EOF
+	}
+	n := copy(p, b.parts[b.i][b.pos:])
+	b.pos += n
+	return n, nil
+}
+func (b *verifPartsBody) Close() error { return nil }
+
+// VerifBodyText returns the whole (possibly symbolic) text of a loopback
+// response body.
+func VerifBodyText(rc io.ReadCloser) (string, bool) {
+	pb, ok := rc.(*verifPartsBody)
+	if !ok {
+		return "", false
+	}
+	s := ""
+	for _, p := range pb.parts {
+		s += p
+	}
+	return s, true
+}
+
+func (l *VerifLoopback) Do(req *http.Request) (*http.Response, error) {
+	l.Requests = append(l.Requests, req)
+	if !vrt.Symbolic() {
+		rec := newNativeRecorder()
+		sreq := req
+		if sreq.Body == nil {
+			sreq.Body = http.NoBody
+		}
+		l.Handler.ServeHTTP(rec, sreq)
+		return rec.result(req), nil
+	}
+	rec := &verifLoopRecorder{hdr: http.Header{}}
+	sreq := &http.Request{Method: req.Method, URL: &url.URL{Path: req.URL.Path}, Header: req.Header, Body: req.Body, Host: req.URL.Host}
+	if sreq.Body == nil {
+		sreq.Body = http.NoBody
+	}
+	VerifRequestBody = VerifSentBody
+	l.Handler.ServeHTTP(rec, sreq)
+	code := rec.code
+	if code == 0 {
+		code = 200
+	}
+	return &http.Response{StatusCode: code, Status: "status", Header: rec.hdr, Body: &verifPartsBody{parts: rec.parts}, Request: req}, nil
+}
+
+type nativeRecorder struct {
+	hdr  http.Header
+	code int
+	buf  bytes.Buffer
+}
+
+func newNativeRecorder() *nativeRecorder { return &nativeRecorder{hdr: http.Header{}} }
+func (r *nativeRecorder) Header() http.Header { return r.hdr }
+func (r *nativeRecorder) WriteHeader(code int) {
+	if r.code == 0 {
+		r.code = code
+	}
+}
+func (r *nativeRecorder) Write(b []byte) (int, error) {
+	if r.code == 0 {
+		r.code = 200
+	}
+	return r.buf.Write(b)
+}
+func (r *nativeRecorder) result(req *http.Request) *http.Response {
+	code := r.code
+	if code == 0 {
+		code = 200
+	}
+	return &http.Response{StatusCode: code, Status: http.StatusText(code), Header: r.hdr, Body: ioutil.NopCloser(bytes.NewReader(r.buf.Bytes())), Request: req}
+}
+
+func verifStubNewRequest(c *Client, method string, path string, body io.Reader) (*http.Request, error) {
+	req := &http.Request{Method: method, URL: c.ResolveHref(path), Header: http.Header{}}
+	if body != nil {
+		if rc, ok := body.(io.ReadCloser); ok {
+			req.Body = rc
+		} else {
+			req.Body = ioutil.NopCloser(body)
+		}
+	}
+	return req, nil
+}
+
+// VerifXMLRoundTripBytes decodes real XML bytes (native run).
+func VerifXMLRoundTripBytes(b []byte, out interface{}) error { return xml.Unmarshal(b, out) }
+
+// VerifMarshal renders a value as an XML document (native run).
+func VerifMarshal(v interface{}) ([]byte, error) {
+	b, err := xml.Marshal(v)
+	if err != nil {
+		return nil, err
+	}
+	return append([]byte(xml.Header), b...), nil
 }
